@@ -26,6 +26,11 @@ func ParseProgram(p *ParserZH) *syntax.Program {
 		p.unsetStmtCompleteFlag()
 		switch hState {
 		case stateImportBlock:
+			// imports may be separated by ； as well as by line breaks
+			if match, _ := p.tryConsume(TypeStmtSep); match {
+				p.setStmtCompleteFlag()
+				return
+			}
 			if match, tk := p.tryConsume(TypeImportW); match {
 				// parse import statement
 				stmt := ParseImportStmt(p)
